@@ -1,0 +1,87 @@
+//go:build verif
+
+package main
+
+import (
+	"encoding/json"
+	"io"
+	"log"
+
+	"github.com/ludo-technologies/pyscn/app"
+	"github.com/ludo-technologies/pyscn/domain"
+)
+
+func init() {
+	// assemble: build an AnalyzeResponse whose sections are present according to
+	// "sel" and run calculateSummary (summary assembly + health score) on it.
+	register("assemble", func(raw json.RawMessage) (interface{}, error) {
+		var req struct {
+			Sel struct{ Cx, Dead, Clone, Cbo, Lcom, Sys bool }
+			A   struct {
+				CxFiles                                int
+				AvgCx                                  float64
+				HighCx                                 int
+				DeadFiles, DeadTotal, Crit, Warn, Info int
+				CloneLines, CloneGroups                int
+				CboClasses, CboHigh, CboMed            int
+				LcomClasses, LcomHigh, LcomMed         int
+				Modules, InCycles, Depth               int
+				Msd                                    float64
+				HasArch                                bool
+				Arch                                   float64
+			}
+		}
+		if err := json.Unmarshal(raw, &req); err != nil {
+			return nil, err
+		}
+		log.SetOutput(io.Discard)
+		a := req.A
+		resp := &domain.AnalyzeResponse{}
+		if req.Sel.Cx {
+			resp.Summary.ComplexityEnabled = true
+			resp.Complexity = &domain.ComplexityResponse{Summary: domain.ComplexitySummary{
+				FilesAnalyzed: a.CxFiles, AverageComplexity: a.AvgCx, HighRiskFunctions: a.HighCx}}
+		}
+		if req.Sel.Dead {
+			resp.Summary.DeadCodeEnabled = true
+			resp.DeadCode = &domain.DeadCodeResponse{Summary: domain.DeadCodeSummary{
+				TotalFiles: a.DeadFiles, TotalFindings: a.DeadTotal, CriticalFindings: a.Crit,
+				WarningFindings: a.Warn, InfoFindings: a.Info}}
+		}
+		if req.Sel.Clone {
+			resp.Summary.CloneEnabled = true
+			resp.Clone = &domain.CloneResponse{Statistics: &domain.CloneStatistics{
+				LinesAnalyzed: a.CloneLines, TotalCloneGroups: a.CloneGroups}}
+		}
+		if req.Sel.Cbo {
+			resp.Summary.CBOEnabled = true
+			resp.CBO = &domain.CBOResponse{Summary: domain.CBOSummary{
+				TotalClasses: a.CboClasses, HighRiskClasses: a.CboHigh, MediumRiskClasses: a.CboMed}}
+		}
+		if req.Sel.Lcom {
+			resp.Summary.LCOMEnabled = true
+			resp.LCOM = &domain.LCOMResponse{Summary: domain.LCOMSummary{
+				TotalClasses: a.LcomClasses, HighRiskClasses: a.LcomHigh, MediumRiskClasses: a.LcomMed}}
+		}
+		if req.Sel.Sys {
+			resp.Summary.DepsEnabled = true
+			resp.System = &domain.SystemAnalysisResponse{DependencyAnalysis: &domain.DependencyAnalysisResult{
+				TotalModules: a.Modules, MaxDepth: a.Depth,
+				CircularDependencies: &domain.CircularDependencyAnalysis{TotalModulesInCycles: a.InCycles},
+				CouplingAnalysis:     &domain.CouplingAnalysis{MainSequenceDeviation: a.Msd},
+			}}
+			if a.HasArch {
+				resp.Summary.ArchEnabled = true
+				resp.System.ArchitectureAnalysis = &domain.ArchitectureAnalysisResult{ComplianceScore: a.Arch}
+			}
+		}
+		app.VerifCalculateSummary(resp)
+		s := resp.Summary
+		return map[string]interface{}{
+			"health": s.HealthScore, "grade": s.Grade, "total_files": s.TotalFiles,
+			"dup": s.CodeDuplication,
+			"scores": []int{s.ComplexityScore, s.DeadCodeScore, s.DuplicationScore, s.CouplingScore,
+				s.CohesionScore, s.DependencyScore, s.ArchitectureScore},
+		}, nil
+	})
+}
